@@ -97,7 +97,7 @@ theorem leafToRoot_eq_chainD (i : Nat) : ∀ (ps : List H) (j : Nat) (r : H) (di
 theorem storageProofRoot_eq_chainD (leafHash : H) (i fs : Nat) (proof : List H)
     (hlen : bitLen (i ^^^ lastLeafIndex fs) ≤ proof.length) :
     storageProofRoot leafHash i fs proof = chainD (dirOf i (bitLen (i ^^^ lastLeafIndex fs))) 0 leafHash proof := by
-  unfold storageProofRoot proofRoot
+  unfold storageProofRoot proofRoot storageProofSubtreeHeight
   simp only
   have hn : ¬ (proof.length < bitLen (i ^^^ lastLeafIndex fs)) := by omega
   simp only [hn, if_false]
